@@ -502,3 +502,40 @@ def memo_purity_rule(chk, eng: Engine, rule: str) -> None:
                     "answers with the verdict computed under the old value - a tree's verdict depends on when it was first evaluated", keyparts=f"memo-reads-global|{c.name}|{what}")
     if n < 5:
         raise AnalysisError(f"only {n} memoised fitness() methods found")
+
+
+def search_errors_surface_rule(chk, eng: Engine, rule: str) -> None:
+    """"No match = nothing to violate" is the documented meaning of a selector that finds nothing; an *error* while evaluating a selector (an index
+    that does not exist, a slice of the wrong kind) is something else: it must reach the constraint, which counts the combination as failed.
+    A handler inside a search method that swallows the error turns it into "no match", and the constraint becomes vacuously true for that tree.
+    Every find / quantify / evaluation method of the selector classes and containers is free of handlers that do not re-raise."""
+    base = eng.cls("fandango.language.search", "NonTerminalSearch")
+    classes = [base] + base.all_subclasses()
+    for extra in ("Container", "Tree", "TreeList", "Length"):
+        try:
+            k = eng.cls("fandango.language.search", extra)
+            classes += [k] + k.all_subclasses()
+        except Exception:
+            pass
+    n = 0
+    seen = set()
+    for c in classes:
+        for m in c.methods.values():
+            if m.fq in seen or m.name.startswith("__") and m.name not in ("__getitem__", "__call__"):
+                continue
+            seen.add(m.fq)
+            n += 1
+            swallowed = None
+            for t in walk_local(m.node):
+                if isinstance(t, ast.Try):
+                    for h in t.handlers:
+                        if not any(isinstance(x, ast.Raise) for st in h.body for x in ast.walk(st)):
+                            swallowed = swallowed or h
+            if swallowed is None:
+                chk.ok(rule, m.fq, m.line, f"{m.qualname}: evaluation errors propagate", nontrivial=False)
+            else:
+                chk.bad(rule, eng.relfile(m), swallowed.lineno, m.fq, f"{m.qualname} catches `{norm(swallowed.type) if swallowed.type is not None else 'everything'}` and goes on",
+                        "a selector that cannot be evaluated on a tree contributes no match instead of an error: the constraint has no combination left and is vacuously satisfied - "
+                        "trees that the constraint was written to exclude are emitted as solutions", keyparts=f"search-swallows|{m.qualname}")
+    if n < 20:
+        raise AnalysisError(f"only {n} selector methods found")
